@@ -219,7 +219,7 @@ def main(tier, seed=0):
             for off in range(stride if not quick else 2):
                 jobs.append({"kind": "dir1", "flavour": flavour, "side": side, "offset": off, "stride": stride})
     a, b, c = tables.key_family()
-    hs = histories(2 if quick else 4, [a, "kéy\t\n\""])
+    hs = histories(3 if quick else 4, [a, "kéy\t\n\""])
     # hostile keys and metadata written by the reference
     metas = tables.json_values(full=not quick)
     singles = []
@@ -243,7 +243,7 @@ def main(tier, seed=0):
     total["extra"] = {"runs": {}, "dir1_jobs": sum(1 for j in jobs if j["kind"] == "dir1"), "dir2_histories": len(allh)}
     total["distinct"] = set(total["distinct"])
     capped_any = False
-    runs = [C17Spec("astd", 2)] if quick else [C17Spec("astd", 4), C17Spec("tok", 3)]
+    runs = [C17Spec("astd", 3)] if quick else [C17Spec("astd", 4), C17Spec("tok", 3)]
     for spec in runs:
         agg, merr, capped, wall = seqx.bfs(spec, tier, level="model_checking", rule="", technique="", finish=False, budget_s=200 if quick else 2400)
         merr_all += merr
